@@ -239,6 +239,15 @@ class ProductDomain(Domain):
                 b_points = self.domain_b.sample_random_uniform(
                     n=n_, params=new_params, device=device
                 )
+            elif len(params) > 1:
+                # the rejection below counts the points of a single parameter row,
+                # therefore loop over the rows
+                points = Points.empty()
+                for i in range(len(params)):
+                    points = points | self.sample_random_uniform(
+                        n=n, params=params[i,], device=device
+                    )
+                return points
             else:  # use ratio of uniforms to get uniform values in product domain
                 n_points, b_points, new_params = self._sample_uniform_b_points(
                     n, params=params, device=device
